@@ -125,8 +125,15 @@ def _canon(expr):
                 if not re.search(r'%[^dis%]', t) and '%%' not in t and '{' not in t:
                     args = list(n.right.elts) if isinstance(n.right, ast.Tuple) else [n.right]
                     return ast.Call(func=ast.Name(id='FMT', ctx=ast.Load()), args=[ast.Constant(re.sub(r'%[dis]', '{}', t))] + args, keywords=[])
-            # 'a' + FMT(t, x) -> FMT('a' + t, x)   /   FMT(t, x) + 'b' -> FMT(t + 'b', x)
+            # 'a' + FMT(t, x) -> FMT('a' + t, x)   /   FMT(t, x) + 'b' -> FMT(t + 'b', x);  str(x) in a concatenation is FMT('{}', x)
             if isinstance(n.op, ast.Add):
+                def _str(x):
+                    return isinstance(x, ast.Call) and isinstance(x.func, ast.Name) and x.func.id == 'str' and len(x.args) == 1 and not x.keywords
+                if _str(n.left) and isinstance(n.right, (ast.Constant, ast.Call)):
+                    n.left = ast.Call(func=ast.Name(id='FMT', ctx=ast.Load()), args=[ast.Constant('{}'), n.left.args[0]], keywords=[])
+                if _str(n.right) and isinstance(n.left, (ast.Constant, ast.Call)):
+                    n.right = ast.Call(func=ast.Name(id='FMT', ctx=ast.Load()), args=[ast.Constant('{}'), n.right.args[0]], keywords=[])
+
                 def _fmt(x):
                     return isinstance(x, ast.Call) and isinstance(x.func, ast.Name) and x.func.id == 'FMT' and x.args and isinstance(x.args[0], ast.Constant)
                 if isinstance(n.left, ast.Constant) and isinstance(n.left.value, str) and '{' not in n.left.value and _fmt(n.right):
